@@ -227,7 +227,7 @@ pub fn run(ctx: &mut Ctx) {
 
 
     // ------------------------------------------------ complete record followed by more than 64 KiB of trailing bytes
-    let n_long = ctx.tier.pick(300, 3_000);
+    let n_long = ctx.tier.pick(1200, 12000);
     ctx.family("long-trailing", n_long, |ctx, case: &mut Case| {
         let r = &mut case.rng;
         let k = r.usize(1, 300);
@@ -241,7 +241,7 @@ pub fn run(ctx: &mut Ctx) {
     });
 
     // ------------------------------------------------ generated records: value + every prefix
-    let n = ctx.tier.pick(6_000, 60_000);
+    let n = ctx.tier.pick(24000, 240000);
     ctx.family("records", n, |ctx, case: &mut Case| {
         let r = &mut case.rng;
         let ct = *r.pick(&[0x14u8, 0x15, 0x16, 0x16, 0x16]);
@@ -298,7 +298,7 @@ pub fn run(ctx: &mut Ctx) {
     });
 
     // ------------------------------------------------ handshake messages: whole + fragments
-    let n = ctx.tier.pick(20_000, 200_000);
+    let n = ctx.tier.pick(80000, 800000);
     ctx.family("handshake", n, |ctx, case: &mut Case| {
         let r = &mut case.rng;
         let sz = if r.chance(1, 30) { gen::MEDIUM } else { gen::SMALL };
@@ -392,7 +392,7 @@ pub fn run(ctx: &mut Ctx) {
     ctx.mark_exhaustive("all 65536 version values in DTLS ClientHello / ServerHello / HelloVerifyRequest");
 
     // ------------------------------------------------ datagrams of several records
-    let n = ctx.tier.pick(2_000, 20_000);
+    let n = ctx.tier.pick(8000, 80000);
     ctx.family("datagrams", n, |ctx, case: &mut Case| {
         let r = &mut case.rng;
         let k = r.usize(1, if thorough { 12 } else { 6 });
